@@ -1,6 +1,33 @@
 """Which units decide which property.  `verus`: unit names (units/<name>.toml).
 `kani`: harness-group descriptors (see kani_unit.py)."""
 
+INTS = ["i8", "i16", "i32", "i64", "u8", "u16", "u32", "u64"]
+FLOATS = ["f32", "f64"]
+SHAPES = ["precondition_satisfiable", "exact", "fallback", "bounds_none_included", "bounds_none_excluded", "bounds_none_unbounded",
+          "bounds_some_included", "bounds_some_excluded", "bounds_some_unbounded"]
+
+
+def _ranges_harnesses(types):
+    hs = ["end_bound_%s" % t for t in INTS + FLOATS]
+    hs += ["excl_end_%s" % t for t in INTS]
+    hs += ["dm_%s::%s" % (t, s) for t in types for s in SHAPES]
+    return hs
+
+
+KANI_RANGES = {
+    "name": "c04_kani_ranges",
+    "package": "leptos_i18n_parser",
+    "module": "parse_locales::ranges::verif_kani",
+    "harness_files": ["kani/ranges.rs"],
+    "flags": ["-Z", "function-contracts"],
+    # quick: every range_end_bound contract, every exclusive-end lemma, do_match shapes for 3 types
+    "quick": _ranges_harnesses(["i8", "u64", "f64"]),
+    "thorough": _ranges_harnesses(INTS + FLOATS),
+    "timeout": 600,
+    "procs": 8,
+    "source_hint": "leptos_i18n_parser/src/parse_locales/ranges.rs",
+}
+
 PROPS = {
     "C11": {
         "level": "proof",
@@ -26,7 +53,7 @@ PROPS = {
     "C04": {
         "level": "proof",
         "verus": ["c04_find_value"],
-        "kani": [],
+        "kani": [KANI_RANGES],
         "assumptions": [],
         "trusted_base": [],
     },
